@@ -634,11 +634,11 @@ PLANS = {
         ('zsm', [('image', 'sector+1', _ts(1)), ('added_shared', 'sector+1', _ts(1)),
                  ('added_shared', 'sectors', {'sim': 1}), ('image_udf', 'sectors', {'sim': 1})]),
         ('sm5', [('image', 'odd', _ts(1)), ('added_shared', 'odd', {'sim': 1})]),
-        ('b1', _boot_plan([5, 7, 8, 9, 20, 24, 62, 63, 64, 65, 72, 2048, 2500, 4097], 3,
-                          {'added': (20, 3), 'written': (63, 3), 'mixed': (9, 3), 'image_udf': (63, 3),
-                           'image_joliet': (20, 3), 'image_rr': (64, 3), 'added_laid_joliet': (9, 3),
-                           'added_laid_rr': (65, 3), 'added_laid_udf': (20, 3)})),
-        ('b3', _boot_plan([3, 21, 22, 683, 8], 3,                        # 9, 63, 66, 2049, 24 bytes
+        ('b1', _boot_plan([5, 7, 8, 9, 20, 24, 62, 63, 64, 65, 72, 2048, 2500, 4097], 4,
+                          {'added': (20, 4), 'written': (63, 4), 'mixed': (9, 4), 'image_udf': (63, 4),
+                           'image_joliet': (20, 4), 'image_rr': (64, 4), 'added_laid_joliet': (9, 4),
+                           'added_laid_rr': (65, 4), 'added_laid_udf': (20, 4)})),
+        ('b3', _boot_plan([3, 21, 22, 683, 8], 4,                        # 9, 63, 66, 2049, 24 bytes
                           {'added': (21, 6), 'written': (3, 6), 'mixed': (21, 6), 'image_udf': (3, 6),
                            'image_joliet': (21, 6), 'image_rr': (21, 6), 'added_laid_joliet': (3, 6)})),
         ('b4', _boot_plan([5, 2, 16, 513], 4,                            # 20, 8, 64, 2052 bytes
